@@ -11,7 +11,7 @@ CONCEPT = {'a': 'A', 'b': 'B', 'c': 'C', 'd': 'D'}
 
 POOLS = {
     # edge roles, attribute roles, constants, concept options per variable
-    'wide': {'eroles': [':r', ':q', ':r-of'], 'aroles': [':p', ':p-of'], 'consts': ['x', '"s t"', 0, 0.0, -1, 1.5, '', None],
+    'wide': {'eroles': [':r', ':q', ':r-of'], 'aroles': [':p', ':p-of'], 'consts': ['x', '"s t"', '"q\\"r"', 0, 0.0, -1, 1.5, '', None],
              'concepts': ['X', 'VAR', '"s"', None]},
     'mid': {'eroles': [':r', ':r-of'], 'aroles': [':p'], 'consts': ['x', 0], 'concepts': ['X']},
     'narrow': {'eroles': [':r'], 'aroles': [':p'], 'consts': ['x'], 'concepts': ['X']},
